@@ -176,9 +176,11 @@ def run(chk, tier, seed):
                               finding_key="sformat:" + c["spec"])
     # ---- C: sorting and order statistics against the stable reference
     ins = sort_programs(rnd, tier)
+    fins = [{"id": "f%d" % n, "keys": [rnd.randint(0, 9) for _ in range(n)]} for n in ([3, 8, 23] if tier == "quick" else [3, 5, 8, 21, 23, 27, 45])]
+    fins.append({"id": "fs", "keys": sorted(rnd.randint(0, 9) for _ in range(24))})
     d = vf.workdir("c19-sort")
     with open(d + "/in.ndjson", "w") as f:
-        for x in ins:
+        for x in ins + fins:
             f.write(json.dumps(x) + "\n")
     rs = vf.tlc("XrSort", "XrSort.cfg", "c19-sort-tlc", workers=1, env={"SORTIN": d + "/in.ndjson"}, timeout=3000, xmx="6g")
     if not rs.ok:
@@ -254,6 +256,52 @@ def run(chk, tier, seed):
             chk.violation("sort with comparator budget %d of %d: expected %s, observed %s" % (j["_k"], j["_need"], want, oc),
                           {"kind": "sort-fail", "source": j["src"], "limits": j["limits"]})
     vf.validate_job_traces(chk, [{k: v for k, v in j.items() if not k.startswith("_")} for j in fail_jobs], fres, "c19-fail", "failing-comparator trace")
+    # ---- D2: a comparator that fails on ONE ordered pair only.  Whether the sort ever asks that question in that
+    # order is the algorithm's business; the comparator prints when it does, and then the sort must yield that
+    # error - otherwise it must yield the stable reference permutation
+    aj = []
+    for x in fins:
+        n = len(x["keys"])
+        arr = "[%s]" % ", ".join("(%d, %d)" % (k, i) for i, k in enumerate(x["keys"]))
+        qpairs = set()
+        for i in range(0, n - 1, max(1, n // 6)):
+            qpairs |= {(i, i + 1), (i + 1, i)}
+        while len(qpairs) < min(16, n * (n - 1)):
+            a, b = rnd.randrange(n), rnd.randrange(n)
+            if a != b:
+                qpairs.add((a, b))
+        for a, b in sorted(qpairs):
+            src = ("let xs: Sequence<(int, int)> = %s;\nlet r = xs.sort((p: (int, int), q: (int, int)) -> {if(p::item1 == %d && q::item1 == %d, "
+                   "error(display(\"asked %d %d\")), cmp(p::item0, q::item0))});\nlet e = get_error(r.len());\n" % (arr, a, b, a, b))
+            aj.append({"id": "asym_%s_%d_%d" % (x["id"], a, b), "src": src, "observe": ["r", "e"], "max_elems": 256, "limits": {"calls": 10 ** 7}, "_x": x, "_ab": (a, b)})
+    ares = vf.run_jobs([{k: v for k, v in j.items() if not k.startswith("_")} for j in aj], "c19-asym")
+    asked = 0
+    for j in aj:
+        o = ares[j["id"]]
+        oc = vf.job_outcome(o)
+        chk.count(1)
+        chk.nontrivial(j["id"])
+        if oc != "ok":
+            chk.violation("sort program: %s %s" % (oc, str(o.get("compile", {}).get("msg") or o.get("inst"))[:300]), {"kind": "sort-fail", "source": j["src"]})
+            continue
+        hit = "asked %d %d" % j["_ab"] in (o.get("stdout") or "")
+        asked += hit
+        e, rv = o["values"]["e"], o["values"]["r"]
+        if hit:
+            good = e.get("t") == "opt" and e.get("v") and e["v"].get("v") == "asked %d %d" % j["_ab"]
+            want = "the comparator's error (it was asked the failing question)"
+        else:
+            exp = ref[j["_x"]["id"]]
+            good = rv.get("t") == "seq" and [[int(p["v"][0]["v"]), int(p["v"][1]["v"])] for p in rv["v"]] == [list(p) for p in exp]
+            want = "the stable permutation (the failing question was never asked)"
+        if not good:
+            chk.violation("sort of %d elements with a comparator failing only on (%d, %d): expected %s, observed %s" %
+                          (len(j["_x"]["keys"]), j["_ab"][0], j["_ab"][1], want, json.dumps(rv)[:160]),
+                          {"kind": "sort-fail", "source": j["src"]}, finding_key="sort-asym")
+    chk.part("asymmetric_comparators", runs=len(aj), failing_question_asked=asked)
+    # ---- D3: persistent stacks incl. stacks that share element values (XrStack): structural ==, equal hashes
+    import poolcheck
+    poolcheck.run_pool(chk, "XrStack", "XrStack.cfg", "c19-stack", 500 if tier == "quick" else 3000, 14, seed, kind="stack")
     # ---- E: collections reached through different histories are equal and hash equally
     hsrc = ("let s0 = set<int>();\nlet s1 = s0.add(1).remove(1);\nlet e1 = s0 == s1;\nlet h1 = hash(s0) == hash(s1);\n"
             "let s2 = s0.add(1).add(2);\nlet s3 = s0.add(2).add(1).add(3).discard(3);\nlet e2 = s2 == s3;\nlet h2 = hash(s2) == hash(s3);\n"
